@@ -15,17 +15,23 @@ fn plans(_t: Tier) -> Vec<&'static str> {
 }
 
 fn alphabet(_plan: &str, v: &str, t: Tier) -> Alphabet {
+    if v == "align" {
+        // the alignment dimension: unrooted allocations with non-trivial (align, offset) around page
+        // multiples, in the default and the large-object space, and long runs of small over-aligned
+        // objects, next to rooted objects and across collections
+        return Alphabet { sizes: vec![40], sems: vec![Sem::Default], gc_kinds: vec![false, true], bursts: vec![(264, 100, 2)], align_bursts: true, eph_chains: vec![], two_mutators: false, pins: false, cross_writes: false, fields: 0 };
+    }
     if v == "stress" {
         // long mixed-size bursts: the precise-stress paths juggle the limits of both bump
         // pointers, which only matters once many blocks have been consumed
-        return Alphabet { sizes: vec![40, 264], sems: vec![Sem::Default], gc_kinds: vec![false, true], bursts: vec![(1, 2400, 3), (264, 100, 2)], eph_chains: vec![], two_mutators: false, pins: false, cross_writes: false, fields: 0 };
+        return Alphabet { sizes: vec![40, 264], sems: vec![Sem::Default], gc_kinds: vec![false, true], bursts: vec![(1, 2400, 3), (264, 100, 2)], align_bursts: true, eph_chains: vec![], two_mutators: false, pins: false, cross_writes: false, fields: 0 };
     }
     Alphabet {
         sizes: vec![40, 264, 81920],
         sems: vec![Sem::Default],
         gc_kinds: vec![false, true],
         bursts: if t == Tier::Thorough { vec![(264, 150, 2), (40, 400, 3), (2048, 40, 2), (1, 400, 3)] } else { vec![(264, 100, 2), (40, 250, 3), (1, 160, 3)] },
-        eph_chains: vec![], two_mutators: true,
+        align_bursts: false, eph_chains: vec![], two_mutators: true,
         pins: false,
         cross_writes: false,
         fields: 0,
@@ -34,7 +40,7 @@ fn alphabet(_plan: &str, v: &str, t: Tier) -> Alphabet {
 
 fn depth(plan: &str, v: &str, t: Tier) -> usize {
     let d = depth_main(plan, t);
-    if v == "stress" {
+    if v == "stress" || v == "align" {
         (d - 1).min(3)
     } else {
         d
@@ -59,7 +65,7 @@ fn variants(plan: &str, _t: Tier) -> Vec<&'static str> {
     if plan == "NoGC" {
         vec![""]
     } else {
-        vec!["", "stress"]
+        vec!["", "stress", "align"]
     }
 }
 
@@ -86,7 +92,7 @@ fn nontrivial(f: &ProgFacts) -> bool {
 
 fn filter(_v: &str, p: &[Op]) -> bool {
     // programs whose last operation allocates (the oracle is evaluated at allocations)
-    matches!(p.last(), Some(Op::Alloc { .. } | Op::Burst { .. }))
+    matches!(p.last(), Some(Op::Alloc { .. } | Op::Burst { .. } | Op::AlignBurst { .. } | Op::AllocBy1 { .. }))
 }
 
 pub const PROFILE: Profile = Profile {
@@ -99,7 +105,7 @@ pub const PROFILE: Profile = Profile {
     owns,
     nontrivial,
     filter,
-    rule: "every program of length <= depth over {alloc(40 B | 264 B | 80 KiB), burst(size,count,keep-every-k) in {(264,100,2),(40,250,3),(mixed sizes 40/264/520/1032/2048 interleaved,160,3)} (thorough: (264,150,2),(40,400,3),(2048,40,2),(mixed,400,3)) (fragmenting: the dropped ones leave holes next to live data), drop root, GC(normal), GC(exhaustive), bind/destroy a second mutator that allocates too} ending in an allocation, per plan, once with default options and once (one level shallower) with stress_factor set, which routes every allocation through the precise-stress slow paths; every address range returned by alloc must be disjoint from every shadow-reachable object and from every range handed out since the last collection. distinct_nontrivial = programs with an allocation after a collection that found both live and dead objects",
+    rule: "every program of length <= depth over {alloc(40 B | 264 B | 80 KiB), burst(size,count,keep-every-k) in {(264,100,2),(40,250,3),(mixed sizes 40/264/520/1032/2048 interleaved,160,3)} (thorough: (264,150,2),(40,400,3),(2048,40,2),(mixed,400,3)) (fragmenting: the dropped ones leave holes next to live data), an alignment burst (84 unrooted allocations of 4088..16376 B with (align, offset) in {(8,0),(16,8),(32,8),(64,8),(64,56),(16,0)} as Default and as Los, then 1500 objects of 24 B aligned to 16 with offset 0/8), drop root, GC(normal), GC(exhaustive), bind/destroy a second mutator that allocates too} ending in an allocation, per plan, once with default options and once (one level shallower) with stress_factor set, which routes every allocation through the precise-stress slow paths; every address range returned by alloc must be disjoint from every shadow-reachable object and from every range handed out since the last collection. distinct_nontrivial = programs with an allocation after a collection that found both live and dead objects",
     post: None,
     timeout_s: |t| t.pick(300, 3000),
 };
